@@ -79,6 +79,18 @@ func c12Scenarios(tier string) []*Scenario {
 			deps := sh.deps
 			sc.Check = func(w *World) []Violation { return c12Check(w, deps) }
 			scs = append(scs, sc)
+			// variant: a leaf dependent was already asked to stop by the user (and is still dying) when the shutdown begins
+			if ended == 0 && n <= 3 {
+				leaf := sh.names[n-1]
+				sc2 := &Scenario{
+					ID:   fmt.Sprintf("c12-%s-userstop[%s]", sh.id, leaf),
+					YAML: yaml, Procs: procs, K: 1, Ordered: true, TickBudget: 1,
+					API:      [][]APICall{{{Op: "stop", Name: leaf, When: allUp}, {Op: "shutdown"}}},
+					MapSites: sc.MapSites,
+				}
+				sc2.Check = func(w *World) []Violation { return c12Check(w, deps) }
+				scs = append(scs, sc2)
+			}
 		}
 	}
 	return scs
